@@ -55,7 +55,7 @@ def fit_class(f):
     return SAME_FIT.get(f, f)
 
 
-USERS = {"u1": ("alice", 5, "ok"), "u2": ("bob", 2.5, "hm, é")}
+USERS = {"u1": ("alice", 0, "ok"), "u2": ("bob", 2.5, "hm, é")}
 
 
 def ensure_fixtures():
